@@ -50,6 +50,7 @@ PROPS = {
             {"run": "^TestC13Interleavings", "rapid": False, "checks": {"quick": 0, "thorough": 0}, "shards": {"quick": 1, "thorough": 1}},
             {"run": "^TestC13Workloads", "race": True, "checks": {"quick": 25, "thorough": 300}, "shards": {"quick": 2, "thorough": 12}, "shrink_s": 30},
             {"run": "^TestC13RotationVsReaders", "race": True, "checks": {"quick": 5, "thorough": 60}, "shards": {"quick": 1, "thorough": 3}, "shrink_s": 30},
+            {"run": "^TestC13RotationAtomicity", "checks": {"quick": 60, "thorough": 1500}, "shards": {"quick": 1, "thorough": 4}, "shrink_s": 30},
             {"run": "^TestC13Interleavings", "race": True, "rapid": False, "checks": {"quick": 0, "thorough": 0}, "shards": {"quick": 0, "thorough": 1},
              "cover_pkg": "github.com/glowlabs-org/gca-backend/server", "cover_tiers": ["thorough"]},
         ],
